@@ -116,4 +116,181 @@ Proof.
   rewrite Ea in Hn. simpl in Hn. rewrite Hn in H. inversion H; subst stored. clear H.
   rewrite roundtrip. rewrite dlookup_dset_same, time_roundtrip. rewrite dremove_dset. rewrite Ea. reflexivity.
 Qed.
+
+(* ---------------- whole histories refine a plain dictionary ---------------- *)
+Notation E := "_expires".
+Local Arguments String.eqb : simpl never.
+Notation received := (received T).
+Notation run_history := (run_history V T secret mac tag_eqb enc_val dec_val as_time of_time).
+Notation spec_history := (spec_history V T).
+
+Lemma dlookup_app k (a b : dict) :
+  dlookup V k (a ++ b) = match dlookup V k b with Some x => Some x | None => dlookup V k a end.
+Proof.
+  induction a as [|[k' v'] r IH]; simpl; [destruct (dlookup V k b); reflexivity|].
+  rewrite IH. destruct (dlookup V k b); [reflexivity|]. reflexivity.
+Qed.
+
+Lemma dlookup_dremove_same k (d : dict) : dlookup V k (dremove V k d) = None.
+Proof.
+  induction d as [|[k' v'] r IH]; simpl; [reflexivity|].
+  destruct (String.eqb k' k) eqn:Ek; simpl; [exact IH|]. rewrite IH.
+  rewrite String.eqb_sym, Ek. reflexivity.
+Qed.
+
+Lemma dlookup_dremove_other k k' (d : dict) : k <> k' -> dlookup V k (dremove V k' d) = dlookup V k d.
+Proof.
+  intros Hne. induction d as [|[k2 v2] r IH]; simpl; [reflexivity|].
+  destruct (String.eqb k2 k') eqn:Ek; simpl.
+  - rewrite IH. apply String.eqb_eq in Ek. subst k2.
+    destruct (dlookup V k r); [reflexivity|]. apply String.eqb_neq in Hne. rewrite Hne. reflexivity.
+  - rewrite IH. reflexivity.
+Qed.
+
+Lemma dremove_absent k (d : dict) : dlookup V k d = None -> dremove V k d = d.
+Proof.
+  induction d as [|[k' v'] r IH]; simpl; [reflexivity|].
+  destruct (dlookup V k r) eqn:El; [discriminate|].
+  destruct (String.eqb k k') eqn:Ek; [discriminate|]. intros _.
+  rewrite String.eqb_sym, Ek. simpl. f_equal. apply IH. reflexivity.
+Qed.
+
+Definition spares (o : cop V) : Prop := op_key V o <> Some E.
+
+Lemma apply_op_spares (d : dict) o : spares o -> dlookup V E d = None -> dlookup V E (apply_op V d o) = None.
+Proof.
+  unfold spares. destruct o as [k v|k|]; simpl; intros Hs Hd; [| |reflexivity].
+  - unfold dset. rewrite dlookup_app. simpl.
+    destruct (String.eqb E k) eqn:Ek; [apply String.eqb_eq in Ek; subst k; exfalso; apply Hs; reflexivity|].
+    rewrite dlookup_dremove_other; [exact Hd|]. intros He. apply Hs. rewrite He. reflexivity.
+  - rewrite dlookup_dremove_other; [exact Hd|]. intros He. apply Hs. rewrite He. reflexivity.
+Qed.
+
+Definition ops_step := (fun (acc : dict * bool) (o : cop V) =>
+               match o with
+               | CDel _ k => match dlookup V k (fst acc) with
+                           | Some _ => (apply_op V (fst acc) o, true)
+                           | None => acc
+                           end
+               | _ => (apply_op V (fst acc) o, true)
+               end).
+
+Lemma apply_ops_fold ops d : apply_ops V ops d = fold_left ops_step ops (d, false).
+Proof. reflexivity. Qed.
+
+Lemma fold_spares ops : forall acc, Forall spares ops -> dlookup V E (fst acc) = None ->
+  dlookup V E (fst (fold_left ops_step ops acc)) = None.
+Proof.
+  induction ops as [|o r IH]; intros acc Hf Hd; [exact Hd|]. inversion Hf as [|? ? Ho Hr]; subst. simpl.
+  apply IH; [exact Hr|]. unfold ops_step.
+  destruct o as [k v|k|]; simpl.
+  - apply (apply_op_spares (fst acc) (CSet V k v)); assumption.
+  - destruct (dlookup V k (fst acc)); [|exact Hd]. simpl. apply (apply_op_spares (fst acc) (CDel V k)); assumption.
+  - reflexivity.
+Qed.
+
+Lemma fold_flag_mono ops : forall acc, snd acc = true -> snd (fold_left ops_step ops acc) = true.
+Proof.
+  induction ops as [|o r IH]; intros acc Ha; [exact Ha|]. simpl. apply IH. unfold ops_step.
+  destruct o as [k v|k|]; simpl; try reflexivity. destruct (dlookup V k (fst acc)); [reflexivity|exact Ha].
+Qed.
+
+Lemma fold_unmodified ops : forall acc, snd (fold_left ops_step ops acc) = false -> fold_left ops_step ops acc = acc.
+Proof.
+  induction ops as [|o r IH]; intros acc Hs; [reflexivity|]. simpl in *.
+  assert (Hstep : ops_step acc o = acc \/ snd (ops_step acc o) = true).
+  { unfold ops_step. destruct o as [k v|k|]; simpl; auto. destruct (dlookup V k (fst acc)); simpl; auto. }
+  destruct Hstep as [He|Ht].
+  - rewrite He in *. apply IH. exact Hs.
+  - rewrite (fold_flag_mono r _ Ht) in Hs. discriminate.
+Qed.
+
+(* a cookie the server did not sign *)
+Definition unsigned (sk : secret) (r : received) : Prop :=
+  ~ exists its, r = RParsed T (Some (mac sk its)) (map Some its) false.
+
+Lemma unsigned_empty sk now r : unsigned sk r -> unserialize sk now r = [].
+Proof.
+  intros Hu. destruct (unserialize sk now r) eqn:Eu; [reflexivity|]. exfalso. apply Hu.
+  destruct (only_signed sk now r) as [t [its [Hr Ht]]]; [rewrite Eu; discriminate|].
+  exists its. subst t. exact Hr.
+Qed.
+
+(* honest steps leave the reserved key alone; tampering steps present something the server never signed *)
+Fixpoint wf_history (sk : secret) (h : list (hstep V T)) : Prop :=
+  match h with
+  | [] => True
+  | HReq _ _ _ ops :: r => Forall spares ops /\ wf_history sk r
+  | HTamper _ _ x :: r => unsigned sk x /\ wf_history sk r
+  end.
+
+Definition jar_inv (sk : secret) (ex : expiry) (jar : received) (s : spec_state V) : Prop :=
+  (forall now, unserialize sk now jar = spec_given V now s) /\
+  dlookup V E (fst s) = None /\
+  (match ex with ENumeric _ => True | _ => snd s = None end).
+
+Lemma spec_given_spares now (s : spec_state V) : dlookup V E (fst s) = None -> dlookup V E (spec_given V now s) = None.
+Proof.
+  unfold spec_given. destruct (snd s) as [st|]; [|auto]. destruct (st <? now)%Z; auto.
+Qed.
+
+Lemma client_step_inv sk ex jar s now ops :
+  jar_inv sk ex jar s -> Forall spares ops ->
+  let g := spec_given V now s in
+  let s' := (fst (apply_ops V ops g), match ex with ENumeric secs => Some (now + secs)%Z | _ => None end) in
+  snd (client_step V T secret mac tag_eqb enc_val dec_val as_time of_time sk ex jar now ops) = g /\
+  jar_inv sk ex (fst (client_step V T secret mac tag_eqb enc_val dec_val as_time of_time sk ex jar now ops)) s'.
+Proof.
+  intros [J1 [J2 J3]] Hops g s'. unfold client_step, mw_request.
+  fold (unserialize sk now jar). rewrite (J1 now). fold g.
+  assert (Hg : dlookup V E g = None) by (apply spec_given_spares; exact J2).
+  destruct (apply_ops V ops g) as [after modified] eqn:Ea.
+  assert (Hafter : dlookup V E after = None).
+  { change after with (fst (after, modified)). rewrite <- Ea. rewrite apply_ops_fold. apply fold_spares; assumption. }
+  assert (Hs' : s' = (after, match ex with ENumeric secs => Some (now + secs)%Z | _ => None end)).
+  { unfold s'; try rewrite Ea; reflexivity. }
+  assert (Hplain : forall now', unserialize sk now' (serialize sk after) = after).
+  { intros now'. rewrite roundtrip, Hafter. reflexivity. }
+  assert (Hunmod : modified = false -> after = g /\ forall now', spec_given V now' s = g -> True).
+  { intros ->. rewrite apply_ops_fold in Ea. pose proof (fold_unmodified ops (g, false)) as Hf. rewrite Ea in Hf.
+    specialize (Hf eq_refl). inversion Hf. split; [reflexivity|trivial]. }
+  destruct ex as [| |secs].
+  - (* session *) simpl. split; [destruct modified; reflexivity|]. rewrite Hs'.
+    split; [|split; [exact Hafter|reflexivity]]. intros now'. unfold spec_given. simpl.
+    destruct modified; simpl.
+    + apply Hplain.
+    + destruct (Hunmod eq_refl) as [-> _]. rewrite (J1 now'). unfold g, spec_given. rewrite J3. reflexivity.
+  - (* never *) simpl. split; [destruct modified; reflexivity|]. rewrite Hs'.
+    split; [|split; [exact Hafter|reflexivity]]. intros now'. unfold spec_given. simpl.
+    destruct modified; simpl.
+    + apply Hplain.
+    + destruct (Hunmod eq_refl) as [-> _]. rewrite (J1 now'). unfold g, spec_given. rewrite J3. reflexivity.
+  - (* numeric: every response re-stamps *)
+    rewrite Hafter. simpl. split; [reflexivity|]. rewrite Hs'.
+    split; [|split; [exact Hafter|exact I]]. intros now'. unfold spec_given. cbn [fst snd].
+    rewrite roundtrip, dlookup_dset_same, time_roundtrip, dremove_dset, (dremove_absent _ _ Hafter). reflexivity.
+Qed.
+
+(* C16 over whole histories: whatever the client does - any number of requests with any operations, clock
+   readings in any order, any tampering in between - the endpoint is given exactly what the plain
+   dictionary specification holds *)
+Theorem history_refines_dict sk ex h : forall jar s,
+  jar_inv sk ex jar s -> wf_history sk h ->
+  run_history sk ex jar h = spec_history ex s h.
+Proof.
+  induction h as [|st r IH]; intros jar s Hinv Hwf; [reflexivity|].
+  destruct st as [now ops|x]; simpl in Hwf; destruct Hwf as [Hst Hr].
+  - simpl. pose proof (client_step_inv sk ex jar s now ops Hinv Hst) as [Hg Hinv'].
+    destruct (client_step V T secret mac tag_eqb enc_val dec_val as_time of_time sk ex jar now ops) as [jar' given] eqn:Ec.
+    simpl in Hg, Hinv'. subst given. f_equal. apply IH; assumption.
+  - simpl. apply IH; [|exact Hr]. split; [|split; [reflexivity|destruct ex; exact I || reflexivity]].
+    intros now. rewrite (unsigned_empty sk now x Hst). reflexivity.
+Qed.
+
+Lemma fresh_client_inv sk ex : jar_inv sk ex (RAbsent T) ([], None).
+Proof. split; [reflexivity|split; [reflexivity|destruct ex; exact I || reflexivity]]. Qed.
+
+Corollary fresh_history_refines_dict sk ex h :
+  wf_history sk h -> run_history sk ex (RAbsent T) h = spec_history ex ([], None) h.
+Proof. apply history_refines_dict. apply fresh_client_inv. Qed.
 End CookieProofs.
